@@ -31,6 +31,8 @@ is not part of this property's statement.
 
 from __future__ import annotations
 
+import contextlib
+import io
 import json
 import logging
 import re
@@ -176,8 +178,10 @@ class HttpWrap:
         self.reqs: list[dict[str, Any]] = []
 
     def post(self, url: str, *, content: bytes, headers: dict[str, str]) -> Any:
-        r = self.inner.post(url, content=content, headers=headers)
-        self.reqs.append({"url": url, "status": r.status_code, "error": body_has_error(r.status_code, r.content), "cancel": request_is_cancel(content)})
+        # falcon writes tracebacks of unhandled responder errors to wsgi.errors (= sys.stderr at call time)
+        with contextlib.redirect_stderr(io.StringIO()):
+            r = self.inner.post(url, content=content, headers=headers)
+        self.reqs.append({"url": url, "status": r.status_code, "error": body_has_error(r.status_code, r.content), "cancel": request_is_cancel(content, headers)})
         return r
 
     def __getattr__(self, name: str) -> Any:
@@ -206,12 +210,23 @@ def body_has_error(status: int, body: bytes) -> bool:
     return False
 
 
-def request_is_cancel(body: bytes) -> bool:
+def request_is_cancel(body: bytes, headers: dict[str, str]) -> bool:
     from pyarrow import ipc
 
     from vgi_rpc.metadata import CANCEL_KEY
 
+    enc = next((v for k, v in headers.items() if k.lower() == "content-encoding"), "").strip().lower()
     try:
+        if enc == "zstd":
+            import zstandard
+
+            body = zstandard.ZstdDecompressor().decompressobj().decompress(body)
+        elif enc == "gzip":
+            import zlib
+
+            body = zlib.decompress(body, 31)
+        elif enc:
+            raise ValueError(f"harness cannot decode request content-encoding {enc!r}")
         rd = ipc.open_stream(BytesIO(body))
         while True:
             try:
@@ -220,7 +235,7 @@ def request_is_cancel(body: bytes) -> bool:
                 return False
             if cm is not None and cm.get(CANCEL_KEY) is not None:
                 return True
-    except Exception:  # noqa: BLE001
+    except StopIteration:
         return False
 
 
